@@ -168,6 +168,72 @@ pub fn run(rep: &mut Rep) {
             super::add_counters(rep, &w);
         }
     }
+    // very many requests handed over and not yet looked at when the context goes away (it was busy, or run() was not being
+    // polled): all of them, and whatever is started afterwards, fail with ContextExited
+    {
+        use crate::sim::{Cmd, Sim};
+        use crate::spec::{ConnSpec, ErrSum, OpSpec, PubSpec, SubSpec, UnsubSpec};
+        let counts: &[usize] = if rep.quick() { &[3, 1023, 1024, 1025, 1500, 5000] } else { &[3, 255, 256, 1023, 1024, 1025, 1500, 4096, 5000, 70_000] };
+        rep.note(&format!("many requests queued at the drop: {:?} operations of all kinds from three handle clones first polled while the context is not being polled, then drop(context): each reports ContextExited, and so do operations started afterwards (first poll)", counts));
+        for (ci, &n) in counts.iter().enumerate() {
+            let id = format!("queued-at-drop:{n}");
+            if !rep.take(48_500_000 + ci as u64, &id) {
+                continue;
+            }
+            let mut sim = Sim::new(rep.seed);
+            sim.log_enabled = false;
+            sim.cmd(Cmd::Connect(ConnSpec::default()));
+            sim.settle();
+            sim.feed_packet(&crate::refcodec::SPacket::Connack { session_present: false, reason: 0, props: vec![] });
+            sim.settle();
+            sim.cmd(Cmd::Run);
+            sim.settle();
+            sim.clone_handle(0);
+            sim.clone_handle(0);
+            sim.hold_ctx = true;
+            let mk = |j: usize| match j % 6 {
+                0 => OpSpec::Publish(PubSpec::simple(1, "t", b"a")),
+                1 => OpSpec::Ping,
+                2 => OpSpec::Publish(PubSpec::simple(2, "t", b"b")),
+                3 => OpSpec::Subscribe(SubSpec::simple("f")),
+                4 => OpSpec::Publish(PubSpec::simple(0, "t", b"c")),
+                _ => OpSpec::Unsubscribe(UnsubSpec::simple("f")),
+            };
+            for j in 0..n {
+                sim.start_op(j % 3, mk(j));
+            }
+            sim.settle();
+            sim.drop_ctx();
+            sim.settle();
+            let mut bad = Vec::new();
+            for j in 0..n {
+                let ok = matches!(sim.ops[j].out.as_ref().and_then(|o| o.err()), Some(ErrSum::ContextExited));
+                if !ok && bad.len() < 3 {
+                    bad.push(format!("op{j} ({:?}): {:?}", mk(j).kind(), sim.ops[j].out.as_ref().map(|o| o.brief())));
+                }
+            }
+            for j in 0..6 {
+                let op = sim.start_op(j % 3, mk(j));
+                sim.settle();
+                let ok = matches!(sim.ops[op].out.as_ref().and_then(|o| o.err()), Some(ErrSum::ContextExited));
+                if !ok && bad.len() < 6 {
+                    bad.push(format!("started after the drop ({:?}): {:?}", mk(j).kind(), sim.ops[op].out.as_ref().map(|o| o.brief())));
+                }
+            }
+            rep.add("evaluations", 1);
+            rep.add("requests_queued_when_the_context_was_dropped", n as i64);
+            rep.add("context_exited_results_seen", n as i64);
+            rep.distinct(&("queued-at-drop", n));
+            for p in sim.panics.clone() {
+                rep.violation(&format!("C14/panic/{p}"), &id, &format!("panic: {p}"));
+            }
+            if bad.is_empty() {
+                rep.sample(|| format!("{id}: all {n} queued requests and 6 later ones report ContextExited"));
+            } else if sim.panics.is_empty() {
+                rep.violation("C14/op-hangs-after-context-drop/many-queued", &id, &format!("{n} requests queued when the context was dropped: {}", bad.join("; ")));
+            }
+        }
+    }
     // "immediately" has no exceptions in the long run either: more operations started after the drop than there are packet
     // identifiers, from two clones, every one polled once
     {
